@@ -227,6 +227,8 @@ def run(repo: Repo, tier: str) -> Report:
             rep.ob("R-BIND", AFILE, s.where(), "grouped site passes (groups, num_groups, nodata, cal_indices) in the kernel's order",
                    [ast.unparse(a) for a in s.args] == ["self._obj", "groups", "num_groups", "nodata", "cal_indices"],
                    f"args = {[ast.unparse(a) for a in s.args]}", "args of gammastd_grp site", line=s.line)
+    from ..rules import r_truthy
+    r_truthy(rep, repo, "PixelAlgorithms", "spi", ["nodata"], "0 is a legitimate nodata value (it is the one the test-suite uses); a truth test silently replaces or drops it")
     rep.floor("C07 obligations", len(rep.obls), 40)
     return rep
 
